@@ -2,6 +2,7 @@
 C17 — listings agree with each other and with what can be run.
 -/
 import Just.Model.Listing
+import Just.Lemmas.Groups
 namespace Just.Props.C17
 open Just.Listing
 
@@ -151,5 +152,30 @@ example : entriesOf [⟨"b", false, "build", true⟩, ⟨"_b", true, "build", tr
     ⟨"build", ["target", "*rest"], some "comment", some (some "attr"), ["g1", "g2"], false⟩ =
     [⟨some "g1", "build target *rest", some "attr", ["b"]⟩, ⟨some "g2", "build target *rest", some "attr", ["b"]⟩] := by
   decide
+
+/-! ### `--groups`: the groups displayed are the ones declared -/
+
+/-- **a group is listed iff a public recipe (or a submodule) declares it** — under exactly the name declared: `Build` and
+`build` are two groups — -/
+theorem groups_listed_iff (ds : List Decl) (moduleGroups : List String) (g : String) :
+    g ∈ publicGroups ds moduleGroups ↔ (∃ d ∈ ds, d.isPrivate = false ∧ g ∈ d.groups) ∨ g ∈ moduleGroups := by
+  unfold publicGroups
+  rw [mem_dedupAux, mem_sortStr]
+  simp only [List.mem_append, List.mem_flatMap, List.mem_filter, List.not_mem_nil, not_false_eq_true, and_true,
+    Bool.not_eq_eq_eq_not, Bool.not_true]
+  constructor
+  · rintro (⟨d, ⟨hd, hp⟩, hg⟩ | h)
+    · exact Or.inl ⟨d, hd, hp, hg⟩
+    · exact Or.inr h
+  · rintro (⟨d, hd, hp, hg⟩ | h)
+    · exact Or.inl ⟨d, ⟨hd, hp⟩, hg⟩
+    · exact Or.inr h
+
+/-- **and it is listed once** -/
+theorem groups_listed_once (ds : List Decl) (moduleGroups : List String) : (publicGroups ds moduleGroups).Nodup :=
+  nodup_dedupAux _ _
+
+example : publicGroups [⟨"a", [], none, none, ["build", "Build"], false⟩, ⟨"b", [], none, none, ["build"], false⟩,
+    ⟨"_c", [], none, none, ["hidden"], true⟩] ["mg"] = ["Build", "build", "mg"] := by decide
 
 end Just.Props.C17
